@@ -20,8 +20,9 @@ RULE = ('a live bot (Owner + Misc loaded, production paths) receives PRIVMSG com
         'changes nothing.  non-trivial = at least one bracket, a dispatch conflict or a history')
 TRUSTED = ['str.lower() is modelled for ASCII only (generated command tokens are ASCII); `L >= maxL` in findCallbacksForArgs is modelled '
            'as a length comparison (both are prefixes of the same list, as the source comment says)',
-           'the Python stack capacity is an oracle input (k_budget): on ordinary cases it is set above the number of sub-commands; on '
-           'overflow witnesses it is the number of sub-commands the implementation completed',
+           'the Python stack capacity is an oracle input (k_budget): inside in_domain (at most T14.STACK_SAFE_SUBS sub-commands = (recursion limit - 200) / 13) '
+           'the model runs with STACK_SAFE_SUBS + 1, the assumption stack_holds_domain of the theorem, which the harness re-measures on every run (frames per '
+           'sub-command, boundary-size lines in seven shapes); beyond it the budget is the number of sub-commands the implementation completed',
            'sub-callbacks (Commands objects inside a plugin) are modelled one level deep; capability checks of _callCommand are not '
            'modelled (default capabilities allow everything for the unregistered sender)',
            'CommandThread scheduling: the harness joins every thread before reading the log; the model has one control point '
@@ -33,7 +34,10 @@ LEVEL_TEXT = ('Coq theorems over an executable Gallina model of NestedCommandsIr
               'finalEval/reply/noReply/error, nesting limit, Python-stack budget) and of command dispatch (canonicalName, DisabledCommands, '
               'Commands.getCommand with own-name stripping and sub-callbacks, findCallbacksForArgs with own-name/defaultPlugins/importantPlugins rules): '
               'the machine refines a post-order, left-to-right, stop-at-first-stop functional specification for every command tree and every '
-              'dispatch/behaviour function whenever the stack budget covers the number of sub-commands, with a refuting witness beyond it; '
+              'dispatch/behaviour function on in_domain (at most T14.STACK_SAFE_SUBS sub-commands, the only exclusion, finding C14.F22) with a refuting witness just beyond it; '
+              'trace level: the brackets reach finalEval in post-order (each at most once, sub-commands before their command, siblings left to right; exactly the '
+              'post-order enumeration when nothing stops) and the call log is the projection of that trace; plugin-qualified names reach their plugin for every callback '
+              'set without a sub-callback named like the plugin (refutation: finding C14.F23); '
               'nesting refusal; dispatch clauses (single plugin, qualified names on a decidable domain + refutation, ambiguity, disabled); '
               'DisabledCommands.add/remove/disabled and Owner.disable/enable as a state machine: after any history the in-memory '
               'table answers like the documented semantics (full statement since the repair of C14.F24) and a command left disabled everywhere is never selected.  '
@@ -48,7 +52,15 @@ KINDS = {'reply': 0, 'echo': 1, 'silent': 2, 'mute': 3, 'err': 4, 'crash': 5, 'f
 SENDER = 'u!i@h'
 OWNER = 'boss!boss@owner.example'
 _S = {}
-STACK_N = 60      # lines with this many sub-commands or more are the stack-exhaustion class
+def _stack_safe():
+    """T14.STACK_SAFE_SUBS: lines with more bracketed sub-commands than this are outside in_domain (finding C14.F22)"""
+    import t14
+    if 'n' not in _SAFE:
+        _SAFE['n'] = t14.constants()['stack_safe_subs']
+    return _SAFE['n']
+
+
+_SAFE = {}
 
 
 # ------------------------------------------------------------------ live bot
@@ -463,7 +475,7 @@ def cls_stack(inp):
         return False
     S = bot()
     try:
-        return count_subs(_line_tokens(S, inp)) >= STACK_N
+        return count_subs(_line_tokens(S, inp)) > _stack_safe()
     except Exception:
         return False
 
@@ -608,7 +620,12 @@ def run_case(ctx, S, inp, kind, with_model=True):
     if not with_model:
         return None
     # Python-stack oracle: when the implementation silently abandoned a long line, the budget is what it completed
-    budget = len(ilog) + 1 if (nsub >= STACK_N and iout == ['none'] and len(ilog) < nsub) else nsub + 5
+    # in the domain the model runs with exactly the stack the theorem assumes (stack_holds_domain: STACK_SAFE_SUBS + 1
+    # proxies); beyond it the budget is what the implementation turned out to hold
+    if nsub <= _stack_safe():
+        budget = _stack_safe() + 1
+    else:
+        budget = len(ilog) + 1 if (iout == ['none'] and len(ilog) < nsub) else nsub + 5
     return {'inp': inp, 'table': table, 'toks': toks, 'ilog': ilog, 'iout': iout, 'foreign': foreign, 'nsub': nsub, 'budget': budget,
             'wire': model_case(S, inp, table, toks, budget)}
 
@@ -806,6 +823,52 @@ def gen_history(rng):
     return {'plugins': plugins, 'steps': steps}
 
 
+def calibrate_frames(ctx, S):
+    """re-measure the constants behind T14.STACK_SAFE_SUBS on the live bot: Python frames kept per evaluated
+    sub-command (<= frames_per_sub) and the depth at which the first command runs (well inside frames_reserve)"""
+    import sys
+    C, callbacks, irc, conf = S['C'], S['callbacks'], S['irc'], S['conf']
+    depths = []
+
+    def depth():
+        f, n = sys._getframe(1), 0
+        while f is not None:
+            f, n = f.f_back, n + 1
+        return n
+
+    def n(self, irc, msg, args):
+        depths.append(depth())
+        irc.reply('x')
+
+    def s(self, irc, msg, args):
+        depths.append(depth())
+        irc.noReply()
+
+    def e(self, irc, msg, args):
+        depths.append(depth())
+        irc.reply(' '.join(args))
+    remove_plugins(S)
+    apply_settings(S, {})
+    cb = type('Cal', (callbacks.Plugin,), {'n': n, 's': s, 'e': e})(irc)
+    conf.registerPlugin('Cal')
+    irc.addCallback(cb)
+    S['synth'].append(cb)
+    worst, first = 0, 0
+    for line in ['e [n] [n] [n] [n]', 'e [s] [s] [n] [s]', 'e [e [e [e [n]]]] [n]', 'e [e [n] [n]] [e [s] [n]] [e [s] [s]]']:
+        del depths[:]
+        impl_run(S, line)
+        worst = max([worst] + [b - a for a, b in zip(depths, depths[1:])])
+        first = max(first, depths[0] if depths else 0)
+    remove_plugins(S)
+    inp = {'calibration': 'python frames per sub-command', 'line': 'e [e [n] [n]] [e [s] [n]] [e [s] [s]]'}
+    ctx.case('stack-calibration', inp)
+    ctx.notes.append('stack calibration: recursion limit %d (table %d), at most %d frames per sub-command (table %d), first command at depth %d (reserve %d)'
+                     % (sys.getrecursionlimit(), C['recursion_limit'], worst, C['frames_per_sub'], first, C['frames_reserve']))
+    if sys.getrecursionlimit() != C['recursion_limit'] or worst > C['frames_per_sub'] or 2 * first > C['frames_reserve'] or worst == 0:
+        ctx.disagree(inp, [C['recursion_limit'], C['frames_per_sub'], C['frames_reserve']], [sys.getrecursionlimit(), worst, first],
+                     'stack constants of T14.STACK_SAFE_SUBS')
+
+
 def run(ctx):
     S = bot()
     rng = ctx.rng
@@ -819,6 +882,19 @@ def run(ctx):
             recs.append(run_case(ctx, S, dict(base, line=line), 'corpus'))
     recs.append(run_case(ctx, S, W_STACK, 'stack-witness'))
     recs.append(run_case(ctx, S, W_GROUP, 'dispatch-group-witness'))
+    # the boundary of the domain: STACK_SAFE_SUBS sub-commands in the shapes with the most frames per sub-command;
+    # the model (budget STACK_SAFE_SUBS + 1) completes them, so must the bot: this re-measures stack_holds_domain
+    N = _stack_safe()
+    calib = {'name': 'Al', 'cmds': [['e', 'echo'], ['n', 'reply'], ['s', 'silent']]}
+    thr = {'name': 'Be', 'threaded': True, 'cmds': [['b', 'reply']]}
+    for line in ['e ' + ' '.join(['[n]'] * N), 'e x ' + ' '.join(['[s]'] * N),
+                 'e ' + ' '.join(['[e [n] [n]]'] * (N // 3) + ['[n]'] * (N % 3)),
+                 'e ' + ' '.join(['[e [n] [s] [n]]'] * (N // 4) + ['[s]'] * (N % 4)),
+                 'e ' + ' '.join(['[e [n]]'] * (N // 2) + ['[n]'] * (N % 2)),
+                 'e ' + '[e ' * 9 + '[n]' + ']' * 9 + ' ' + ' '.join(['[n]'] * (N - 10)),
+                 'e ' + ' '.join(['[n]'] * (N - 1)) + ' [b]']:
+        recs.append(run_case(ctx, S, {'plugins': [calib, thr], 'settings': {}, 'line': line}, 'stack-boundary'))
+    calibrate_frames(ctx, S)
     # flat many-sibling lines (the tree shape the re-entrant evalArgs is sensitive to)
     for n in (20, 40, 59):
         for k in ('reply', 'silent'):
@@ -837,7 +913,7 @@ def run(ctx):
             line = render_line(toks)
             if hostile and rng.random() < 0.05:
                 line = line.replace(']', '', 1)
-            if not fits(line) or count_subs(toks) >= STACK_N:
+            if not fits(line) or count_subs(toks) > _stack_safe():
                 continue
             recs.append(run_case(ctx, S, {'plugins': plugins, 'settings': st, 'line': line}, 'hostile' if hostile else 'tree'))
     # dispatch stream: flat lines over overlapping names
